@@ -298,8 +298,9 @@ def rule_w1_traverse(A: Analysis, rep):
         return False
     check_w1(A, rep, "W1", "TaskType.traverse", w, memos[0], effect)
     # successors pushed: all of task.deps of the visited task
-    loops = [l for l in walk_local(w.loop) if isinstance(l, ast.For)]
-    ok = len(loops) == 1 and norm(loops[0].iter).endswith(".deps") and any(p for (p, c) in w.pushes() if norm(c.args[0]) == norm(loops[0].target))
-    rep.check(ok, "W1", "traverse follows every dependency", w.loop, "", "traverse does not push every dependency of the visited task")
+    srcs = w.push_sources()
+    memo = memos[0]
+    ok = len(srcs) == 1 and srcs[0][1].endswith(".deps") and all(f in ("%s not in %s" % (srcs[0][0], memo), "not in(%s,%s)" % (srcs[0][0], memo)) for f in srcs[0][2])
+    rep.check(ok, "W1", "traverse follows every dependency", w.loop, "", "traverse does not push every dependency of the visited task (only already-visited ones may be skipped): %s" % srcs)
     init = A.single_def_value(fi, w.stack)
     rep.check(init is not None and norm(init) == "[self.identifier]", "W1", "traverse starts at the task itself", fi.node, "", "traverse's stack is initialised with `%s`" % (norm(init) if init is not None else "?"), deep=False)
